@@ -894,6 +894,11 @@ fn build_matcher_tree(
                 config.today_start = true;
                 Some(TrueMatcher.into_box())
             }
+            "-warn" | "-nowarn" | "-ignore_readdir_race" | "-noignore_readdir_race" => {
+                // Options that are always true; they change nothing here (no
+                // warnings are issued, and a vanished file is reported).
+                Some(TrueMatcher.into_box())
+            }
             "-noleaf" => {
                 // No change of behavior
                 config.no_leaf_dirs = true;
